@@ -148,9 +148,18 @@ TVals ==
 Clocks == {0, 1, 127, 128, 255, 256, 8191, 8192, 16383}
 Nodes == { <<0, 0, 0, 0, 0, 0>>, <<255, 255, 255, 255, 255, 255>>, <<128, 128, 128, 128, 128, 128>>,
            <<127, 127, 127, 127, 127, 127>>, <<1, 2, 3, 4, 5, 6>> }
-InitV1 == c \in [t : TVals, clock : Clocks, node : Nodes]
+\* nodes that are not 6 bytes long ("node ... up to 6 bytes"; the process's own node is the hardware address of an
+\* interface, which has 8 or 20 octets on some link types) and clock sequences beyond the 14 bits that are used
+OddNodes == { <<>>, <<9>>, <<1, 2, 3>>, <<1, 2, 3, 4, 5>>, <<1, 2, 3, 4, 5, 6, 7>>, <<255, 254, 253, 252, 251, 250, 249, 248>>,
+              [i \in 1 .. 16 |-> 160 + i], [i \in 1 .. 17 |-> 90 + i], [i \in 1 .. 20 |-> 200 + i] }
+OddClocks == {16384, 16385, 32767, 65535, 65536, 2147483647}
+OddT == { <<0, 0, 0, 0, 0, 0, 0, 0>>, <<15, 255, 255, 255, 255, 255, 255, 255>>, <<1, 35, 69, 103, 137, 171, 205, 239>>,
+          <<1, 178, 29, 210, 19, 129, 64, 0>> }
+InitV1 == \/ c \in [t : TVals, clock : Clocks, node : Nodes]
+          \/ c \in [t : OddT, clock : {0, 255, 8192, 16383}, node : OddNodes]
+          \/ c \in [t : OddT, clock : OddClocks, node : {<<1, 2, 3, 4, 5, 6>>, <<>>, [i \in 1 .. 8 |-> 240 + i]}]
 EmitV1 == LET tw == WordBE(c.t)
-              u == V1(tw, c.clock, c.node)
+              u == V1(tw, c.clock, NodeField(c.node))
               tm == TimeOfTicks(tw) IN
   PrintT(<<"CASE", ToJson([k |-> "v1", t |-> c.t, clock |-> c.clock, node |-> c.node, u |-> u, str |-> Canon(u),
                            tsec |-> BytesBE(tm.sec), tns |-> tm.ns])>>)
